@@ -4,6 +4,7 @@ import (
 	"verifharness/drv"
 
 	"bytes"
+	"context"
 	"encoding/json"
 	"errors"
 	"fmt"
@@ -14,6 +15,7 @@ import (
 	"strconv"
 	"strings"
 	"sync"
+	"time"
 
 	"github.com/open2b/scriggo"
 	"github.com/open2b/scriggo/native"
@@ -351,9 +353,11 @@ func gen(c *lcase, n int) (*prog, error) {
 	return p, nil
 }
 
+const runTimeout = 40 * time.Second
+
 type outcome struct {
 	builds  string // ok | limiterror | otherbuilderror | othererror | hostpanic
-	run     string // ok | panic | error | hostpanic | none
+	run     string // ok | panic | error | timeout | hostpanic | none
 	printed int    // the integer printed, -1 when none / not an integer
 	msg     string
 	raw     string
@@ -370,7 +374,7 @@ func short(s string) string {
 func exec(p *prog) (o outcome) {
 	o = outcome{builds: "hostpanic", run: "none", printed: -1}
 	var out bytes.Buffer
-	var runner func() error
+	var runner func(ctx context.Context) error
 	func() {
 		defer func() {
 			if r := recover(); r != nil {
@@ -382,14 +386,18 @@ func exec(p *prog) (o outcome) {
 			var t *scriggo.Template
 			t, err = scriggo.BuildTemplate(p.files, "index.txt", p.opts)
 			if err == nil {
-				runner = func() error { return t.Run(&out, nil, nil) }
+				runner = func(ctx context.Context) error {
+					out.Reset()
+					return t.Run(&out, nil, &scriggo.RunOptions{Context: ctx})
+				}
 			}
 		} else {
 			var pr *scriggo.Program
 			pr, err = scriggo.Build(p.files, p.opts)
 			if err == nil {
-				runner = func() error {
-					return pr.Run(&scriggo.RunOptions{Print: func(v any) { fmt.Fprint(&out, v) }})
+				runner = func(ctx context.Context) error {
+					out.Reset()
+					return pr.Run(&scriggo.RunOptions{Context: ctx, Print: func(v any) { fmt.Fprint(&out, v) }})
 				}
 			}
 		}
@@ -417,11 +425,23 @@ func exec(p *prog) (o outcome) {
 				o.run, o.msg = "hostpanic", short(fmt.Sprint(r))
 			}
 		}()
-		err := runner()
+		// These programs run in milliseconds. A run still going after runTimeout is cancelled; it is
+		// logged as "timeout" only if that happens three times in a row.
+		var err error
+		for try := 0; try < 3; try++ {
+			ctx, cancel := context.WithTimeout(context.Background(), runTimeout)
+			err = runner(ctx)
+			cancel()
+			if !errors.Is(err, context.DeadlineExceeded) {
+				break
+			}
+		}
 		var pe *scriggo.PanicError
 		switch {
 		case err == nil:
 			o.run = "ok"
+		case errors.Is(err, context.DeadlineExceeded):
+			o.run, o.msg = "timeout", "run cancelled after "+runTimeout.String()+" (3 times)"
 		case errors.As(err, &pe):
 			o.run, o.msg = "panic", short(err.Error())
 		default:
